@@ -292,3 +292,32 @@ Example C03_reject_teardown_releases : forall rfc,
   free st = 2 /\ option_map live (nth_error (sl st) 0) = Some false.
 Proof. intros []; vm_compute; auto. Qed.
 Print Assumptions C03_reject_teardown_releases.
+
+(* C03_reject_clean for the repaired reject path (step_rt), EVERY component state (reachable or not), any variant:
+   when a reject / error answer matches a session (the only way it has any effect, C03_aaa_unmatched_ignored),
+   then after the step that session is out of the component's indexes (live = false: it can receive no frame and
+   no AAA answer any more) and the pool has its lease back — exactly: [free] grows by one iff the session held a
+   pool lease that was its current address.  (A session whose address was overridden by a later Framed-IP accept
+   while it still held a pool lease does not give the lease back: [alloc_pool && cur4 = APool] is false then —
+   a C02-type leak of terminate, outside this property.)  With [C03_reject_clean_partial] (never-accepted
+   attempts hold nothing, whatever happens) this covers reject, error and missing decision. *)
+From OV Require C03.GateReject.
+Theorem C03_reject_clean : forall v st k a i,
+  reject_target v st (EvAAA k a) = Some i ->
+  exists s s',
+    nth_error (sl st) i = Some s /\ live s = true /\ pend_matches v k s = true /\ allowed_of a = false /\
+    nth_error (sl (fst (step_rt v st (EvAAA k a)))) i = Some s' /\
+    live s' = false /\
+    free (fst (step_rt v st (EvAAA k a))) =
+      free st + (if alloc_pool s && addr_eqb (cur4 s) APool then 1 else 0).
+Proof. exact GateReject.reject_teardown_clean. Qed.
+Print Assumptions C03_reject_clean.
+Example C03_reject_clean_teardown_nonvacuous :
+  let v := mkV true false in
+  let st := fst (run v (init 2) (ev_pending ++ [EvAAA 1 AAcc; EvFrame 0 (FrLcp (FCreq QGood));
+                                                EvFrame 0 (FrLcp (FCack true)); EvFrame 0 FrChapResp])) in
+  reject_target v st (EvAAA 2 ARej) = Some 0 /\ reject_target v st (EvAAA 2 AErr) = Some 0 /\
+  option_map (fun s => alloc_pool s && addr_eqb (cur4 s) APool) (nth_error (sl st) 0) = Some true /\
+  free st = 1 /\ free (fst (step_rt v st (EvAAA 2 ARej))) = 2.
+Proof. intros v st. repeat split; timeout 20 (vm_compute; reflexivity). Qed.
+Print Assumptions C03_reject_clean_teardown_nonvacuous.
